@@ -566,6 +566,7 @@ func (p *Prog) xattrLayoutRule(r *Report, a *gateAnchors) {
 func checkC01(p *Prog, r *Report) {
 	r.Explanation = "Structural necessary conditions of 'incremental == clean' on the up-to-date predicate (found by identity: the bool function of package build that calls readRuleHashFromXattrs). (1) gate completeness via return-case facts: every return that can say 'no need to build' is dominated by the equality edge of a bytes.Equal between each stored part (config, rule, source, secret) and the freshly computed value of the same kind, by nil errors of sourceHash/secretHash, by the metadata-file existence test, and is reached only through the loop over target.Outputs() whose missing-output edge returns true; every inequality edge returns true. (2) table agreement: the byte layout written by targetHash/writeRuleHash (rule(pre) rule(post) config source secret) equals the constant slices read by readRuleHashFromXattrs. (3) source hash coverage: sourceHash hashes, by content (timestamp=false) and name, every path of core.IterSources and every tool path, writes each result to the hash and never drops a hashing error. (4) buildTarget leaves through the 'nothing to do' return only under needsBuilding()==false. (5) unchanged-output detection in moveOutput is by content-hash equality. Rule-hash field coverage/framing is decided under C08 and tree hashing under C09."
 	r.NotCovered = []string{"byte equality of plz-out over real edit histories", "filegroup special cases", "remote execution", "hash collisions"}
+	p.hardlinkMarkerRule(r, "fs/E9.hardlink-marker-protocol")
 	a := p.gate(r, "E5.gate-completeness")
 	if a == nil {
 		return
